@@ -4,20 +4,41 @@
 All fields are `int` typed (optionally `ge=0`), so "conforming value" = int (and >= 0); inputs are unbounded solver
 integers, the convertible string '5' or the invalid string 'x'.
 """
+from typing import List
+
 from utype import DataClass, Field, Options, Schema, exc
+
+LIST_INT = List[int]
 
 UNSET = object()
 
 
 def F(name, required=None, default=UNSET, factory=None, defer=False, alias=None, alias_from=(), ci=None,
-      no_input=False, no_output=False, mode=None, deps=(), on_error=None, ge=None, immutable=False):
-    return dict(name=name, required=required, default=default, factory=factory, defer=defer, alias=alias,
+      no_input=False, no_output=False, mode=None, deps=(), on_error=None, ge=None, immutable=False, alias_fn=None, generated=False):
+    """alias / alias_from are the names the documentation prescribes; alias_fn is the callable given to Field(alias=...) that
+    must produce `alias`; generated=True means alias / alias_from come from the class-level generators (not passed to Field)"""
+    return dict(alias_fn=alias_fn, generated=generated, name=name, required=required, default=default, factory=factory, defer=defer, alias=alias,
                 alias_from=tuple(alias_from), ci=ci, no_input=no_input, no_output=no_output, mode=mode,
                 deps=tuple(deps), on_error=on_error, ge=ge, immutable=immutable)
 
 
 def seven():
     return 7
+
+
+def upper_x(name):
+    return name.upper() + 'X'
+
+
+def gen_out(name):
+    return name + '_g'
+
+
+def gen_in(name):
+    return 'in_' + name
+
+
+CLASS_OPTIONS = {'aliasgen': {'alias_generator': gen_out, 'alias_from_generator': gen_in}}
 
 
 SPECS = {
@@ -33,6 +54,8 @@ SPECS = {
     'onerr': [F('a', ge=0, on_error='exclude', default=7), F('b', ge=0, on_error='exclude', required=False),
               F('c', ge=0, on_error='preserve', required=False), F('d', ge=0)],
     'defer': [F('a', default=1, defer=True), F('b', factory=seven, defer=True), F('c', default=3)],
+    'aliasgen': [F('a', alias='AX', alias_fn=upper_x, alias_from=['in_a'], generated=True), F('b', alias='b_g', alias_from=['in_b'], generated=True, default=1),
+                 F('c', alias='cc', alias_from=['c1'], required=False)],
     'depio': [F('x', required=False, deps=['y']), F('y', no_input=True, default=9), F('z', default=0, deps=['x'])],
     'mix': [F('a', alias='A1', ci=True), F('b', alias_from=['b1'], default=0, deps=['a']),
             F('c', no_input=True, default=2), F('d', ge=0, on_error='exclude', required=False)],
@@ -49,9 +72,11 @@ def field_obj(f):
         kw['default_factory'] = f['factory']
     if f['defer']:
         kw['defer_default'] = True
-    if f['alias']:
+    if f['alias_fn']:
+        kw['alias'] = f['alias_fn']
+    elif f['alias'] and not f['generated']:
         kw['alias'] = f['alias']
-    if f['alias_from']:
+    if f['alias_from'] and not f['generated']:
         kw['alias_from'] = list(f['alias_from'])
     if f['ci'] is not None:
         kw['case_insensitive'] = f['ci']
@@ -85,6 +110,7 @@ def make_class(spec_id, base='Schema', class_opts=None):
     ns = {'__annotations__': {f['name']: int for f in spec}, '__module__': __name__, '__qualname__': name}
     for f in spec:
         ns[f['name']] = field_obj(f)
+    class_opts = dict(CLASS_OPTIONS.get(spec_id, {}), **(class_opts or {}))
     if class_opts:
         ns['__options__'] = Options(**class_opts)
     b = Schema if base == 'Schema' else DataClass
@@ -323,8 +349,10 @@ def reference(spec_id, o, items):
         elif add is True:
             keys[k] = v
             attrs[k] = v
-        elif add is int:
+        elif add is int or add is LIST_INT:
             r = conv_int(v, None)
+            if add is LIST_INT and r[0] == 'ok':
+                r = ('ok', [r[1]])
             if r[0] == 'ok':
                 keys[k] = r[1]
                 attrs[k] = r[1]
